@@ -23,6 +23,14 @@ class RecordingKMS(_mod.SuitKMS):
                 fh.write(json.dumps([key_name, algorithm, bytes(data).hex(), bytes(sig).hex()]) + "\n")
         return sig
 
+    def encrypt(self, plaintext, key_name, context, aad):
+        nonce, tag, ciphertext = super().encrypt(plaintext, key_name, context, aad)
+        rec = os.environ.get("VERIF_KMS_RECORD")
+        if rec:
+            with open(rec, "a") as fh:
+                fh.write(json.dumps(["encrypt", key_name, bytes(aad).hex(), bytes(nonce).hex(), bytes(tag).hex(), bytes(ciphertext).hex()]) + "\n")
+        return nonce, tag, ciphertext
+
 
 def suit_kms_factory():
     return RecordingKMS()
